@@ -51,6 +51,7 @@ type Stats struct {
 	Paths, PathsPruned, Forks, Merged          int
 	Discharged, Violated, Inconclusive         int
 	QSat, QUnsat, QUnknown                     int
+	QFresh                                     int
 	Covers                                     map[string]int
 	AssertSites                                map[string]int
 	Inconcl                                    []string
@@ -75,6 +76,11 @@ type Explorer struct {
 	MaxDepth int // decision depth limit
 	MaxInstr int64
 	instrs   int64
+
+	// implied: conditions whose value the path condition already fixes
+	// (term ID -> value). The path condition only grows along a path, so an
+	// entry stays valid until resetPath.
+	implied map[int]bool
 
 	FuncsSeen map[string]bool
 	Params    map[string]int
@@ -101,6 +107,26 @@ func (e *Explorer) resetPath(prefix []Decision) {
 	e.ndraw = 0
 	e.instrs = 0
 	e.observes = e.observes[:0]
+	e.implied = map[int]bool{}
+}
+
+func (e *Explorer) known(cond *smt.Term) (val, ok bool) {
+	if cond.Op == smt.ONot {
+		v, ok := e.implied[cond.Args[0].ID]
+		return !v, ok
+	}
+	v, ok := e.implied[cond.ID]
+	return v, ok
+}
+
+func (e *Explorer) learn(cond *smt.Term, val bool) {
+	if cond.Op == smt.ONot {
+		cond, val = cond.Args[0], !val
+	}
+	if e.implied == nil {
+		e.implied = map[int]bool{}
+	}
+	e.implied[cond.ID] = val
 }
 
 func (e *Explorer) check(extra ...*smt.Term) smt.Result {
@@ -143,25 +169,39 @@ func (e *Explorer) branch(cond *smt.Term) bool {
 			panic(engineLimit{fmt.Sprintf("decision log mismatch at %d: want branch, have %c", k, d.Kind)})
 		}
 		e.trace = append(e.trace, d)
-		if d.Ch == 0 {
-			e.addPC(cond)
-			return true
+		if _, ok := e.known(cond); !ok {
+			if d.Ch == 0 {
+				e.addPC(cond)
+			} else {
+				e.addPC(sctx.Not(cond))
+			}
+			e.learn(cond, d.Ch == 0)
 		}
-		e.addPC(sctx.Not(cond))
-		return false
+		return d.Ch == 0
 	}
 	if k >= e.MaxDepth {
 		panic(engineLimit{"decision depth limit"})
+	}
+	if v, ok := e.known(cond); ok {
+		// already fixed by the path condition: forced arm, no query
+		ch := 1
+		if v {
+			ch = 0
+		}
+		e.trace = append(e.trace, Decision{Kind: 'b', Ch: ch})
+		return v
 	}
 	rt := e.check(cond)
 	if rt == smt.Unsat {
 		// only the false arm (recorded so that replays stay aligned)
 		e.trace = append(e.trace, Decision{Kind: 'b', Ch: 1})
+		e.learn(cond, false)
 		return false
 	}
 	rf := e.check(sctx.Not(cond))
 	if rf == smt.Unsat {
 		e.trace = append(e.trace, Decision{Kind: 'b', Ch: 0})
+		e.learn(cond, true)
 		return true
 	}
 	if rt == smt.Unknown || rf == smt.Unknown {
@@ -170,6 +210,7 @@ func (e *Explorer) branch(cond *smt.Term) bool {
 	e.pushAlt(Decision{Kind: 'b', Ch: 1})
 	e.trace = append(e.trace, Decision{Kind: 'b', Ch: 0})
 	e.addPC(cond)
+	e.learn(cond, true)
 	return true
 }
 
@@ -354,6 +395,10 @@ func (e *Explorer) assert(c value, site, msg string) {
 		e.Stats.ConcreteAsserts++
 		return
 	case sym:
+		if v, ok := e.known(cv.e); ok && v {
+			e.Stats.Discharged++ // same condition already established on this path
+			return
+		}
 		neg := sctx.Not(cv.e)
 		if e.violation("assert", site, msg, neg) {
 			// continue under the assumption that it held
@@ -367,6 +412,7 @@ func (e *Explorer) assert(c value, site, msg string) {
 			}
 		}
 		e.addPC(cv.e)
+		e.learn(cv.e, true)
 	}
 }
 
@@ -377,10 +423,14 @@ func (e *Explorer) assume(c value) {
 			panic(pathAbort{"assume false"})
 		}
 	case sym:
+		if v, ok := e.known(cv.e); ok && v {
+			return
+		}
 		if e.check(cv.e) == smt.Unsat {
 			panic(pathAbort{"assume infeasible"})
 		}
 		e.addPC(cv.e)
+		e.learn(cv.e, true)
 	}
 }
 
